@@ -7,6 +7,7 @@ from astlib import (
     block_tail,
     calls,
     find_fn,
+    fns_in_file,
     find_impl,
     find_item,
     is_node,
@@ -98,6 +99,36 @@ def const_array(file, name):
 def curve_variant(p):
     ps = pat_paths(p)
     return [last(x) for x in ps]
+
+
+def peels_update(conds, body=None, target=None):
+    """Does the `Call { .. }` pattern on this path look at the instantiation of an array element too?  Component
+    arrays are assigned as `c = update(c, [i], Call ..)`: the pass must match the Call against the right-hand side
+    *with an Update peeled off* (`if let Update { rhe, .. } = rhe { rhe } else { rhe }` or a match with both arms).
+    returns (ok, description)"""
+    def has_ctor(pat, name):
+        return any(n.get("k") in ("PStruct", "PTupleStruct", "PPath") and last(n.get("path", "")) == name for n in walk(pat))
+
+    call_facts = [f for f in conds if f[0] == "iflet" and f[3] and has_ctor(f[1], "Call")]
+    call_facts += [("iflet", f[2], f[1], True) for f in conds if f[0] == "arm" and has_ctor(f[2], "Call")]
+    if not call_facts:
+        return False, "no Call pattern on the path"
+    for f in call_facts:
+        pat, scrut = f[1], f[2]
+        top_is_call = pat.get("k") in ("PStruct", "PTupleStruct") and last(pat.get("path", "")) == "Call"
+        if top_is_call:
+            if body is not None and strip(scrut)["k"] == "Path":
+                le = let_env(body, target)
+                scrut = le.get(strip(scrut)["path"], scrut)
+            peeled = any((n["k"] == "Let" and has_ctor(n["pat"], "Update")) or (n["k"] == "Match" and any(has_ctor(a["pat"], "Update") for a in n["arms"])) for n in walk(scrut))
+            if peeled:
+                continue
+            return False, "the Call pattern is applied to `%s`, which is not peeled" % render(scrut)[:80]
+        # nested inside a larger pattern: accepted only if that pattern also lets an Update through
+        if has_ctor(pat, "Update"):
+            continue
+        return False, "the Call pattern is nested in `%s`: an element assignment (Update) never matches" % render(pat)[:100]
+    return True, "Call matched after peeling Update"
 
 
 def rule_table(ctx):
@@ -241,6 +272,8 @@ def rule_table(ctx):
             or (f[0] == "if" and not f[2] and re.search(r"type_knowledge\(\)\.is_(local|signal)\(\)$", render(f[1])))
             or (f[0] == "if" and f[2] and f[1]["k"] == "MethodCall" and f[1]["method"] == "contains")
         )]
+        okp, why = peels_update(conds, vs["body"], p)
+        ctx.check(R, "visit_statement/push/array-elements-inspected", okp, why + ": `c[i] = T(..)` is an Update around the instantiation", site(BN, p))
         ctx.check(R, "visit_statement/push/no-further-suppression", not extra, "additional conditions on the report: %s" % extra, site(BN, p))
     # every statement of every block is visited
     import sgrep as _sg
@@ -467,6 +500,8 @@ def rule_thresholds(ctx, primes):
             # positive guards: component name equality + arity
             namec = [fact_str(c) for c in conds if c[0] == "if" and c[2] and "component_name" in fact_str(c) or (c[0] == "if" and c[2] and "args.len()" in fact_str(c))]
             ctx.check(R, key + "/name-and-arity", any(('== "%s"' % which) in s for s in namec) and any("args.len() == 1" in s for s in namec), "guards: %s" % namec, site(NS, p))
+            okp, why = peels_update(conds, vs["body"], p)
+            ctx.check(R, key + "/array-elements-inspected", okp, why + ": `c[i] = %s(n)` is an Update around the instantiation" % which, site(NS, p))
             # suppression: exactly one, and it is (value known) && (value <= bits-1)
             rel = [n for n in notalls if any("FieldElement" in fact_str(x) for x in n[1])]
             if len(rel) != 1:
@@ -701,6 +736,48 @@ def rule_fromstr(ctx):
     if mainfn is not None:
         c = list(calls(mainfn["body"], "AnalysisRunner::new"))
         ctx.check(R, "main/curve-option-reaches-runner", len(c) == 1 and render(strip(c[0]["args"][0])) == "options.curve", "AnalysisRunner::new(%s)" % (render(c[0]["args"]) if c else "?"))
+    # ... and stays there: the runner is the only carrier of the curve between the command line and the passes
+    RUNF = "program_analysis/src/analysis_runner.rs"
+    from astlib import struct_literal_fields
+
+    newf = find_fn(RUNF, "new", "AnalysisRunner")
+    if newf is None:
+        ctx.missing(R, "AnalysisRunner::new")
+    else:
+        prm = [i["pat"]["name"] for i in newf["sig"]["inputs"] if not i.get("self") and i["pat"]["k"] == "PIdent"]
+        lits = [x for x in walk(newf["body"]) if x["k"] == "Struct" and last(x["path"]) in ("AnalysisRunner", "Self")]
+        okn = False
+        for x in lits:
+            fl = {f_["name"]: render(strip(f_["e"])) for f_ in x["fields"]}
+            okn = okn or (bool(prm) and fl.get("curve") == prm[0])
+        asg = [a for a in walk(newf["body"]) if a["k"] == "Assign" and render(a["l"]).replace(" ", "").endswith(".curve") and bool(prm) and render(strip(a["r"])) == prm[0]]
+        ctx.check(R, "AnalysisRunner::new/stores-the-curve", okn or bool(asg), "the constructor must keep the curve it is given", site(RUNF, newf))
+    n_self = 0
+    for q, f in fns_in_file(RUNF):
+        if "AnalysisRunner" not in q or "tests" in q or not f.get("body") or f["name"] == "new":
+            continue
+        for x in walk(f["body"]):
+            if x["k"] == "Struct" and last(x["path"]) in ("AnalysisRunner", "Self"):
+                n_self += 1
+                fl = {f_["name"]: render(strip(f_["e"])).replace(" ", "") for f_ in x["fields"]}
+                rest = render(strip(x["rest"])).replace(" ", "") if x.get("rest") else None
+                okc = fl.get("curve") in ("self.curve", "self.curve.clone()") or rest == "self"
+                if f["name"] == "default" and "Default" in q:
+                    okc = True
+                ctx.check(R, "AnalysisRunner::%s/rebuilt-runner-keeps-the-curve" % f["name"], okc, "a runner is built from `self` with curve = %s and base %s: the curve chosen on the command line is replaced by the default" % (fl.get("curve"), rest), site(RUNF, x))
+            if x["k"] == "Assign" and re.fullmatch(r"self\.curve", render(x["l"]).replace(" ", "")):
+                ctx.bad(R, "AnalysisRunner::%s/curve-reassigned" % f["name"], "self.curve is assigned outside the constructor", site(RUNF, x))
+    gens = [c for q, f in fns_in_file(RUNF) if "AnalysisRunner" in q and f.get("body") and "tests" not in q for c in calls(f["body"], "generate_cfg")]
+    ctx.floor(R, "generate_cfg call sites", len(gens), 2)
+    for c in gens:
+        ctx.check(R, "generate_cfg/gets-the-runner's-curve", len(c["args"]) == 3 and render(strip(c["args"][1])).replace(" ", "") in ("self.curve", "&self.curve"), "curve argument: %s" % (render(c["args"][1]) if len(c["args"]) > 1 else "?"), site(RUNF, c))
+    g = find_fn(RUNF, "generate_cfg")
+    if g is None:
+        ctx.missing(R, "generate_cfg")
+    else:
+        gp = [i["pat"]["name"] for i in g["sig"]["inputs"] if i["pat"]["k"] == "PIdent"]
+        ic = [m for m in method_calls(g["body"], "into_cfg")]
+        ctx.check(R, "generate_cfg/passes-the-curve-on", len(ic) == 1 and len(gp) == 3 and len(ic[0]["args"]) == 2 and render(strip(ic[0]["args"][0])) == gp[1], "into_cfg(%s)" % (render(ic[0]["args"]) if ic else "?"), site(RUNF, g))
     # Display for Curve (used in messages): distinct names
     ims = find_impl(CONSTS, "Curve", "Display")
     if ims:
